@@ -306,6 +306,8 @@ def cli_check(ctx, hl, dist, cov, only=None):
             mcls = "ok" if mh else "nohosts"
         elif m.startswith("ub:"):
             mh, mcls = None, "crash"
+        elif m == "diverge":
+            mh, mcls = None, "timeout"
         else:
             mh, mcls = None, m
         icls = "crash" if cls.startswith("crash") else cls
